@@ -173,6 +173,32 @@ impl ProtoCtx {
                     }
                 },
             },
+            // the QAP witness map (data-parallel under rayon) on the witness of a given assignment: digest of the h vector
+            ("witmap", 8) => match mk_witness(&w[1..])? {
+                Err(_) => "err".into(),
+                Ok(wi) => match inputs_for_witness_calculation(&wi) {
+                    Err(_) => "err".into(),
+                    Ok(inputs) => {
+                        use ark_groth16::r1cs_to_qap::R1CSToQAP;
+                        use ark_poly::GeneralEvaluationDomain;
+                        let inputs = inputs.into_iter().map(|(n, v)| (n.to_string(), v));
+                        let wit = rln::circuit::calculate_rln_witness(inputs, rln::circuit::graph_from_folder());
+                        let pk = zkey_from_folder();
+                        let m = &pk.1;
+                        match CircomReduction::witness_map_from_matrices::<Fr, GeneralEvaluationDomain<Fr>>(m, m.num_instance_variables, m.num_constraints, &wit) {
+                            Ok(h) => {
+                                use tiny_keccak::{Hasher, Keccak};
+                                let mut k = Keccak::v256();
+                                for f in &h { k.update(&fr_to_bytes_le(f)); }
+                                let mut d = [0u8; 32];
+                                k.finalize(&mut d);
+                                format!("len={} digest={}", h.len(), show_bytes(&d))
+                            }
+                            Err(_) => "err".into(),
+                        }
+                    }
+                },
+            },
             ("de_witness", 2) => match deserialize_witness(&parse_bytes(w[1])?) {
                 Ok((wi, n)) => format!("ok {} read={}", show_witness(&wi), n),
                 Err(_) => "err".into(),
@@ -294,4 +320,29 @@ impl ProtoCtx {
             _ => return None,
         })
     }
+}
+
+/// read-only calls on a shared instance (`&RLN`), for the concurrency part of C18
+pub fn shared_op(rln: &RLN, line: &str) -> String {
+    let w: Vec<&str> = line.trim().split(' ').filter(|s| !s.is_empty()).collect();
+    let r = std::panic::catch_unwind(std::panic::AssertUnwindSafe(|| -> Option<String> {
+        let out = |r: color_eyre::Result<()>, c: Cursor<Vec<u8>>| if r.is_ok() { format!("ok {}", show_bytes(&c.into_inner())) } else { "err".to_string() };
+        Some(match (w[0], w.len()) {
+            ("verify", _) if w.len() >= 2 => verdict(rln.verify(Cursor::new(parse_bytes(w[1])?))),
+            ("verify_rln", _) if w.len() >= 2 => verdict(rln.verify_rln_proof(Cursor::new(parse_bytes(w[1])?))),
+            ("verify_roots", _) if w.len() >= 3 => verdict(rln.verify_with_roots(Cursor::new(parse_bytes(w[1])?), Cursor::new(parse_bytes(w[2])?))),
+            ("root", 1) => { let mut c = Cursor::new(Vec::new()); let r = rln.get_root(&mut c); out(r, c) }
+            ("get_leaf", 2) => { let mut c = Cursor::new(Vec::new()); let r = rln.get_leaf(parse_usize(w[1])?, &mut c); out(r, c) }
+            ("get_proof", 2) => { let mut c = Cursor::new(Vec::new()); let r = rln.get_proof(parse_usize(w[1])?, &mut c); out(r, c) }
+            ("sub_root", 3) => { let mut c = Cursor::new(Vec::new()); let r = rln.get_subtree_root(parse_usize(w[1])?, parse_usize(w[2])?, &mut c); out(r, c) }
+            ("empty", 1) => { let mut c = Cursor::new(Vec::new()); let r = rln.get_empty_leaves_indices(&mut c); out(r, c) }
+            ("meta_get", 1) => { let mut c = Cursor::new(Vec::new()); let r = rln.get_metadata(&mut c); out(r, c) }
+            ("seeded_key_gen", 2) => { let mut c = Cursor::new(Vec::new()); let r = rln.seeded_key_gen(Cursor::new(parse_bytes(w[1])?), &mut c); out(r, c) }
+            ("recover", 3) => { let mut c = Cursor::new(Vec::new()); let r = rln.recover_id_secret(Cursor::new(parse_bytes(w[1])?), Cursor::new(parse_bytes(w[2])?), &mut c); out(r, c) }
+            ("hash", 2) => { let mut c = Cursor::new(Vec::new()); let r = rln::public::hash(Cursor::new(parse_bytes(w[1])?), &mut c); out(r, c) }
+            ("poseidon", 2) => { let mut c = Cursor::new(Vec::new()); let r = rln::public::poseidon_hash(Cursor::new(parse_bytes(w[1])?), &mut c); out(r, c) }
+            _ => return None,
+        })
+    }));
+    match r { Ok(Some(s)) => s, Ok(None) => "bad-op".into(), Err(_) => "panic".into() }
 }
